@@ -18,7 +18,7 @@ RULE = ('histories = every valid sequence up to depth D over {B(i): build model 
         'variants); composed API potentials used as operands after evaluation; OUTPUT_FILE = /dev/stdout in a pipe; THREAD SCHEDULES: two real threads '
         'tabulating at once under a cooperative scheduler - (a) switch points = evaluations of the model functions, every schedule with <= 2 '
         'pre-emptions (A at its i-th, B at its j-th evaluation) for 14 target pairs, (b) switch point = any traced line of the library, one '
-        'pre-emption (B runs to completion), also with both threads writing ONE tabulation object; PROCESS ENVIRONMENT: every model (and the potable command line) in fresh processes run with python -O, -OO, with logging configured at DEBUG / ERROR by the embedding application, and both: same bytes, same probe values; PROCESS STATE: after every operation of every history the process-wide state (numpy error mode and print options, recursion limit, cwd, decimal context, locale, logging levels, umask, sys.stdout) is what it was before')
+        'pre-emption (B runs to completion), also with both threads writing ONE tabulation object; PROCESS ENVIRONMENT: every model (and the potable command line) in fresh processes run with python -O, -OO, with logging configured at DEBUG / ERROR by the embedding application, and both: same bytes, same probe values; probes include an evaluation that fails inside a formula (later evaluations of the same objects are unaffected) and separations handed over as 0-d numpy arrays (the array is the caller's: unchanged, and the value repeatable); PROCESS STATE: after every operation of every history the process-wide state (numpy error mode and print options, recursion limit, cwd, decimal context, locale, logging levels, umask, sys.stdout) is what it was before')
 ASSUMPTIONS = [
     'set-order seam: module-level name `set` injected into config/_eam_potential_builder, _dlpoly_writeTABEAM, config/_config_parser, config/_tabulation_factories; a set built elsewhere whose order reaches the output is only covered by the hash-seed runs',
     'hash seeds {0,1,2,3,5,8,13,21,34,random}: the seeds control iteration order, all orders of the covered sets are enumerated by the seam',
@@ -42,11 +42,15 @@ Zr-O : as.zbl 40 8
 Zr-Zr : as.zbl 40 40
 Th-O : spline(as.bornmayer 1200.0 0.3 >=1.0 exp_spline >=2.0 as.buck 0.0 1.0 30.0)
 Th-Th : as.buck4 1500.0 0.25 25.0 1.0 1.6 2.2
+Pu-O : trans(as.buck 900.0 0.32 20.0, as.constant 0.5)
+Cm-O : >=0 shared 700.0 0.3
 
 [Potential-Form]
 shared(r, A, rho) = A*exp(-r/rho) - inner(r, 2.0*rho) + as.buck(r, 10.0, rho, 1.0)
 inner(r, s) = s/r^2
-""", [['pair', 0, 1.0], ['pair', 1, 1.0], ['pair', 2, 3.0], ['pair', 2, 5.0], ['pair', 2, 3.5], ['pair', 2, 3.2], ['force', 3, 0.5], ['pair', 4, 0.7], ['force', 4, 0.7], ['pair', 5, 1.5], ['pair', 6, 1.3]])
+""", [['pair', 0, 1.0], ['pair', 1, 1.0], ['pair', 2, 3.0], ['pair', 2, 5.0], ['pair', 2, 3.5], ['pair', 2, 3.2], ['force', 3, 0.5], ['pair', 4, 0.7], ['force', 4, 0.7], ['pair', 5, 1.5], ['pair', 6, 1.3],
+      # an evaluation that fails inside a formula (as.buck at r = 0) - later evaluations of the same objects are unaffected; a separation handed over as a 0-d numpy array (it is the caller's)
+      ['pair', 8, 0.0], ['pair0d', 7, 1.5], ['pair0d', 1, 1.25], ['pair', 8, 1.0]])
 MODELS['pairB'] = ("""[Tabulation]
 target : LAMMPS
 nr : 5
@@ -168,8 +172,18 @@ def build(name):
 
 def probe(tab, p):
     kind, idx, x = p
+    if kind == 'pair0d':
+        import numpy
+        r = numpy.array(x)
+        v1 = tab.potentials[idx].energy(r)
+        v2 = tab.potentials[idx].energy(r)
+        f = tab.potentials[idx].force(r)
+        return [float(v1), float(v2), float(f), float(r)]
     if kind == 'pair':
-        return tab.potentials[idx].energy(x)
+        try:
+            return tab.potentials[idx].energy(x)
+        except Exception as e:  # noqa  (which exception is part of the observation)
+            return 'raises:%s' % type(e).__name__
     if kind == 'force':
         return tab.potentials[idx].force(x)
     ep = tab.eam_potentials[idx]
@@ -188,7 +202,7 @@ def write(tab):
 def pure_reference(name):
     """model text -> (bytes, probe values), evaluated in this (assumed fresh) process"""
     tab = build(name)
-    vals = [probe(tab, p) for p in MODELS[name][1]]
+    vals = [probe(build(name), p) for p in MODELS[name][1]]        # (each probe on objects of its own: the reference is a function of text and probe)
     return dict(bytes=write(tab), probes=vals)
 
 
@@ -247,7 +261,7 @@ def cases(tier):
         for k in range(min(2 if tier == 'quick' else 3, len(MODELS[n][1]))):
             alphabet.append(['E', n, k])
     # every model has at least its boundary probes in the alphabet
-    extra = [['E', 'pairA', 2], ['E', 'pairA', 3], ['E', 'pairA', 4], ['E', 'pairA', 5], ['E', 'pairB', 2], ['E', 'pairB', 4], ['E', 'pairA', 6], ['E', 'pairA', 7], ['E', 'pairA', 8]]      # (pairB probe 4: a form used directly that another form also calls)
+    extra = [['E', 'pairA', 2], ['E', 'pairA', 3], ['E', 'pairA', 4], ['E', 'pairA', 5], ['E', 'pairB', 2], ['E', 'pairB', 4], ['E', 'pairA', 6], ['E', 'pairA', 7], ['E', 'pairA', 8], ['E', 'pairA', 11], ['E', 'pairA', 12], ['E', 'pairA', 13], ['E', 'pairA', 14]]      # (pairB probe 4: a form used directly that another form also calls)
     for e in extra:
         if e not in alphabet:
             alphabet.append(e)
@@ -336,6 +350,10 @@ def run_history(case):
             got = probe(handles[name], MODELS[name][1][op[2]])
             want = ref[name]['probes'][op[2]]
             warm[name] = 1
+            pk = MODELS[name][1][op[2]]
+            if pk[0] == 'pair0d' and (got[0] != got[1] or got[3] != pk[2]):
+                viol.append(dict(sig='argument-mutated-or-value-not-repeatable', msg='history %s: model %s potential %d evaluated twice at the 0-d array %r gives %r and %r; the array holds %r afterwards'
+                                 % (describe(case['ops']), name, pk[1], pk[2], got[0], got[1], got[3]), detail={}))
             if got != want:
                 viol.append(dict(sig='impure-evaluation', msg='history %s: probe %r of model %s = %r, in a fresh process %r'
                                  % (describe(case['ops']), MODELS[name][1][op[2]], name, got, want), detail={}))
